@@ -786,6 +786,9 @@ func descD(v ssa.Value, depth int) string {
 		if fv := boundStructField(x); fv != nil {
 			return descD(fv, depth+1)
 		}
+		if rec, key, ok := recordEntry(x); ok {
+			return descD(rec, depth+1) + "[\"" + key + "\"]"
+		}
 		base, _, name := ownerFieldBase(x)
 		if b, ok := rerootBase(base); ok {
 			return b + "." + name
